@@ -62,17 +62,28 @@ std::vector<T> const& special()
     return v;
 }
 
+// sign-less part classes for situation labels: nan inf huge tiny zero finite
 char const* part_class(T v)
 {
     if (fp::is_nan(v)) { return "nan"; }
-    if (fp::is_inf(v)) { return fp::sign(v) ? "-inf" : "inf"; }
-    if (fp::is_zero(v)) { return fp::sign(v) ? "-0" : "0"; }
+    if (fp::is_inf(v)) { return "inf"; }
+    if (fp::is_zero(v)) { return "zero"; }
     unsigned e = fp::biased_exp(v);
-    if (e == 0) { return "denormal"; }
-    if (e <= 2) { return "min"; }
-    if (e >= NEXP - 3) { return "max"; }
+    if (e <= 2) { return "tiny"; }
+    if (e >= NEXP - 3) { return "huge"; }
     return "finite";
 }
+int part_rank(T v)
+{
+    if (fp::is_nan(v)) { return 5; }
+    if (fp::is_inf(v)) { return 4; }
+    if (fp::is_zero(v)) { return 1; }
+    unsigned e = fp::biased_exp(v);
+    if (e >= NEXP - 3) { return 3; }
+    if (e <= 2) { return 2; }
+    return 0;
+}
+char const* worst_class(T a, T b) { return part_rank(a) >= part_rank(b) ? part_class(a) : part_class(b); }
 // result component class for the class comparison: nan / +-inf / finite (zero signs are compared separately)
 char const* rclass(T v)
 {
@@ -89,19 +100,29 @@ struct Ctx {
     std::uint64_t n = 0;
     std::uint64_t maxerr = 0;
     char maxat[200]{};
+    bool near_one_matters = false; // log/log10: the neighbourhood of z = 1 is its own situation
+    int div_matters = 0;           // 1: complex/complex (divisor w), 2: T/complex (divisor z): a zero divisor is its own situation
+    bool in_sub = false;           // the current evaluation is in that sub-domain (not counted in maxerr)
 };
 
 void zshow(char* out, std::size_t cap, T re, T im) { std::snprintf(out, cap, "(%a,%a)", (double)re, (double)im); }
 
-void set_crumb(Ctx const& c, T a, T b, T p, T q, bool two)
+void set_crumb(Ctx& c, T a, T b, T p, T q, bool two)
 {
+    c.in_sub = false;
     char sit[96];
     if (std::strcmp(c.stratum, "special") == 0) {
         if (two) {
-            std::snprintf(sit, sizeof sit, "special,z=(%s,%s),w=(%s,%s)", part_class(a), part_class(b), part_class(p), part_class(q));
+            std::snprintf(sit, sizeof sit, "special,z:%s,w:%s", worst_class(a, b), worst_class(p, q));
         } else {
             std::snprintf(sit, sizeof sit, "special,z=(%s,%s)", part_class(a), part_class(b));
         }
+    } else if ((c.div_matters == 1 && fp::is_zero(p) && fp::is_zero(q)) || (c.div_matters == 2 && fp::is_zero(a) && fp::is_zero(b))) {
+        std::snprintf(sit, sizeof sit, "%s,divisor-zero", c.stratum);
+        c.in_sub = true;
+    } else if (c.near_one_matters && std::hypot((W)a - 1, (W)b) < (W)0.0625) {
+        std::snprintf(sit, sizeof sit, "%s,near-one", c.stratum);
+        c.in_sub = true;
     } else {
         std::snprintf(sit, sizeof sit, "%s", c.stratum);
     }
@@ -141,7 +162,7 @@ void cmp_c(Ctx& c, T er, T ei, T rr, T ri)
     if (den < fl) { den = fl; }
     W const err = num / (den * (W)EPS);
     std::uint64_t const u = err >= 1e18L ? ~0ull : (std::uint64_t)std::ceil(err);
-    if (u > c.maxerr) {
+    if (u > c.maxerr && !c.in_sub) {
         c.maxerr = u;
         std::snprintf(c.maxat, sizeof c.maxat, "%s obs=%s ref=%s", vf::g().sh ? vf::g().sh->args : "", o, e);
     }
@@ -347,6 +368,8 @@ void run_case(vf::Case& c)
         x.stratum     = "moderate";
         Fn const& fn  = kFns[f];
         x.subject = fn.subject, x.op = fn.op;
+    x.near_one_matters = std::strncmp(fn.subject, "log", 3) == 0;
+    x.div_matters      = std::strcmp(fn.op, "complex/complex") == 0 ? 1 : (std::strcmp(fn.op, "T/complex") == 0 ? 2 : 0);
         if (fn.shape != EQ_CC && fn.shape != EQ_CT && !need_bound(fn.subject, fn.op, &x.bound)) { return; }
         drive_row(x, fn, L, L[c.index % L.size()]);
     } else if (c.enumerated) {
@@ -356,6 +379,8 @@ void run_case(vf::Case& c)
         x.stratum           = "special";
         Fn const& fn        = kFns[f];
         x.subject = fn.subject, x.op = fn.op;
+    x.near_one_matters = std::strncmp(fn.subject, "log", 3) == 0;
+    x.div_matters      = std::strcmp(fn.op, "complex/complex") == 0 ? 1 : (std::strcmp(fn.op, "T/complex") == 0 ? 2 : 0);
         if (!fn.special_too) { return; }
         if (fn.shape != EQ_CC && fn.shape != EQ_CT && !need_bound(fn.subject, fn.op, &x.bound)) { return; }
         drive_row(x, fn, L, L[k % L.size()]);
@@ -364,6 +389,8 @@ void run_case(vf::Case& c)
         x.stratum    = "random";
         Fn const& fn = kFns[f];
         x.subject = fn.subject, x.op = fn.op;
+    x.near_one_matters = std::strncmp(fn.subject, "log", 3) == 0;
+    x.div_matters      = std::strcmp(fn.op, "complex/complex") == 0 ? 1 : (std::strcmp(fn.op, "T/complex") == 0 ? 2 : 0);
         if (fn.shape != EQ_CC && fn.shape != EQ_CT && !need_bound(fn.subject, fn.op, &x.bound)) { return; }
         unsigned const n = random_per_case(c.tier);
         for (unsigned i = 0; i < n; ++i) {
